@@ -1091,6 +1091,15 @@ func runSimFingerprint(w *bufio.Writer, seed uint64, n int, args []string) {
 			if o == nil {
 				continue
 			}
+			if c.Emit { // the fresh built-in dial against the generated table of its QUICID (clause (e))
+				q := 0
+				for j, nm := range parrotNames {
+					if nm == name {
+						q = j
+					}
+				}
+				fmt.Fprintf(w, "CASE 1 %s\n", u.App("FBuiltin", u.Z(int64(q)), uspecdialWireTerm(o.Wire)))
+			}
 			ids[o.HexID]++
 			if firstOf[o.HexID] == nil {
 				firstOf[o.HexID] = o
